@@ -509,6 +509,13 @@ func (e *specEnv) callExpr(c *ast.CallExpr) Val {
 				}
 				_, dom := e.x.mapGet(e.cur, mt, mv.T, keyTerm(e.expr(c.Args[1])))
 				return scalar(dom, types.Typ[types.Bool])
+			case "holdsNonNil":
+				// holdsNonNil(x): the interface value x is nil or holds a non-nil pointer (never a typed nil)
+				v := e.expr(c.Args[0])
+				if v.K != VIface {
+					e.fail(c, "holdsNonNil(interface)")
+				}
+				return scalar(Or(Eq(v.Fs[0].T, BVU(0, 64)), Not(Eq(v.Fs[1].T, BVU(0, 64)))), types.Typ[types.Bool])
 			case "lastBool":
 				// lastBool("callee"): the boolean result of the most recent call of that callee in this execution
 				bl, ok := c.Args[0].(*ast.BasicLit)
